@@ -89,6 +89,9 @@ pub fn run(ctx: &Ctx, out: &mut CaseOut) {
                                 } else if is_slg && ((trivial(&a) && ambig(f)) || (trivial(f) && ambig(&a))) {
                                     // F12: warm sub-tables change the order in which answers arrive
                                     Some("slg:trivial-answer-green-cut-order")
+                                } else if is_slg {
+                                    let warm_sub = slg_subsumed_answers(&mut slg_solver);
+                                    slg_order_signature(&disp(&a), warm_sub, &disp(f), fresh_slg_subsumed(&l, &p.goal))
                                 } else {
                                     None
                                 };
